@@ -44,6 +44,7 @@ func (e *Env) Audit(ctx context.Context, stores []string) AuditResult {
 		mu.Unlock()
 	}
 	defer func() { e.Hub.Tap = nil }()
+	roots := map[sop.UUID]bool{}
 	names := map[string]bool{}
 	if t, err := e.Begin(ctx, "audit-list", sop.ForReading, time.Minute); err == nil {
 		l, _ := t.GetStores(ctx)
@@ -60,12 +61,38 @@ func (e *Env) Audit(ctx context.Context, stores []string) AuditResult {
 			mu.Lock()
 			blobs[id] = true // the value of an item kept outside the node lives in a blob named by the item's id
 			mu.Unlock()
+		}, func(id sop.UUID) {
+			mu.Lock()
+			roots[id] = true
+			handles[id] = true
+			mu.Unlock()
 		}); err != nil {
 			res.Unreadable = append(res.Unreadable, s+": "+err.Error())
 		}
 	}
-	res.Reached = len(blobs)
 	hm := encoding.NewHandleMarshaler()
+	// the store info keeps referring to the root node of a store that has become empty: its handle and active blob
+	// are live although a traversal reads nothing
+	filepath.Walk(e.Folder, func(p string, info os.FileInfo, err error) error {
+		if err != nil || info.IsDir() || !strings.HasSuffix(p, ".reg") {
+			return nil
+		}
+		data, err := os.ReadFile(p)
+		if err != nil {
+			return nil
+		}
+		const block, slot, per = 4096, sop.HandleSizeInBytes, 66
+		for off := 0; off+block <= len(data); off += block {
+			for i := 0; i < per; i++ {
+				var h sop.Handle
+				if err := hm.Unmarshal(data[off+i*slot:off+(i+1)*slot], &h); err == nil && roots[h.LogicalID] {
+					blobs[h.GetActiveID()] = true
+				}
+			}
+		}
+		return nil
+	})
+	res.Reached = len(blobs)
 	filepath.Walk(e.Folder, func(p string, info os.FileInfo, err error) error {
 		if err != nil || info.IsDir() {
 			return nil
@@ -120,7 +147,7 @@ func (e *Env) Audit(ctx context.Context, stores []string) AuditResult {
 }
 
 // walk traverses a whole store in a fresh reader transaction, fetching every item (and so every value).
-func (e *Env) walk(ctx context.Context, store string, item func(id sop.UUID)) error {
+func (e *Env) walk(ctx context.Context, store string, item func(id sop.UUID), root func(id sop.UUID)) error {
 	t, err := e.Begin(ctx, "audit-"+store, sop.ForReading, time.Minute)
 	if err != nil {
 		return err
@@ -129,6 +156,9 @@ func (e *Env) walk(ctx context.Context, store string, item func(id sop.UUID)) er
 	b, err := OpenBtree[int, string](ctx, t, store)
 	if err != nil {
 		return err
+	}
+	if si := b.GetStoreInfo(); !si.RootNodeID.IsNil() {
+		root(si.RootNodeID) // the store info refers to the root also when the store is empty (First then reads nothing)
 	}
 	ok, err := b.First(ctx)
 	for ok && err == nil {
